@@ -9,7 +9,7 @@
    cell / total : content of a grid cell and grand total of a row-major 3-D array. *)
 From Coq Require Import ZArith QArith Qround Qabs List Bool.
 From Abacus.Common Require Import Arr Num.
-From Abacus.C06 Require Import Arr3.
+From Abacus.C06 Require Import Tab Arr3.
 Import ListNotations.
 Local Open Scope Z_scope.
 
@@ -45,5 +45,57 @@ Definition in_grid (G : arr3 Q) (a b c : Z) : Prop := 0 <= a < d0 G /\ 0 <= b < 
 Definition contrib (K : Q -> Q) (gx gy gz : Z) (a b c : Z) (pw : Q * Q * Q * Q) : Q :=
   let '(px, py, pz, w) := pw in (w * (Kper K gx a px * Kper K gy b py * Kper K gz c pz))%Q.
 
+(* position in units of cells: the grid coordinate of a particle along an axis of g cells spanning [0, box),
+   with the sub-cell offset of interlacing added to the position *)
+Definition grid_coord (pos offset box : Q) (g : Z) : Q := ((pos + offset) * inject_Z g / box)%Q.
+
 (* periodic wrap of a coordinate, specification side *)
 Definition in_box (box x : Q) : Prop := (0 <= x)%Q /\ (x < box)%Q.
+
+(* ------------------------------------------------------------------ vocabulary of the theorems *)
+(* a particle is (x, y, z, weight); the weight is 1 when no weights array is given *)
+Definition Wof (hw : bool) (w : Q) : Q := if hw then w else 1%Q.
+
+(* the admissible range of the nearest cell along an axis of extent g: exactly the values for which the three
+   neighbour indices i-1, i, i+1 stay in bounds after one right-wrap and numba's negative-index wrap *)
+Definition i_ok (g i : Z) : Prop := 1 - g <= i <= 2 * g - 2.
+
+Definition gc3 (box off : Q) (hw : bool) (n0 n1 n2 : Z) (p : Q * Q * Q * Q) : Q * Q * Q * Q :=
+  let '(x, y, z, w) := p in
+  (grid_coord x off box n0, grid_coord y off box n1, grid_coord z off box n2, Wof hw w).
+
+(* the exact admissibility condition: along every axis the nearest cell lies in [1 - g, 2g - 2] *)
+Definition near (box off : Q) (g : Z) (x : Q) : Z := round_half_even (grid_coord x off box g).
+
+Definition adm_tsc (box off : Q) (n0 n1 n2 : Z) (p : Q * Q * Q * Q) : Prop :=
+  let '(x, y, z, _) := p in
+  i_ok n0 (near box off n0 x) /\ i_ok n1 (near box off n1 y) /\ i_ok n2 (near box off n2 z).
+
+Definition adm_cic (box : Q) (n0 n1 n2 : Z) (p : Q * Q * Q * Q) : Prop :=
+  let '(x, y, z, _) := p in
+  i_ok n0 (near box 0 n0 x) /\ i_ok n1 (near box 0 n1 y) /\ (n2 = 1 \/ i_ok n2 (near box 0 n2 z)).
+
+Definition one_spec (K : Q -> Q) (G : arr3 Q) (r : res (arr3 Q)) (pw : Q * Q * Q * Q) : Prop :=
+  exists G', r = Ok G' /\ wf3 G' /\ dims3 G' = dims3 G /\
+    (forall a b c, in_grid G a b c ->
+       (cell G' a b c == cell G a b c + contrib K (d0 G) (d1 G) (d2 G) a b c pw)%Q) /\
+    (total G' == total G + snd pw)%Q.
+
+Definition many_spec (K : Q -> Q) (G : arr3 Q) (r : res (arr3 Q)) (pws : list (Q * Q * Q * Q)) : Prop :=
+  exists G', r = Ok G' /\ wf3 G' /\ dims3 G' = dims3 G /\
+    (forall a b c, in_grid G a b c ->
+       (cell G' a b c == cell G a b c + Qsum (map (contrib K (d0 G) (d1 G) (d2 G) a b c) pws))%Q) /\
+    (total G' == total G + Qsum (map snd pws))%Q.
+
+Definition Kof (k : kind) : Q -> Q := match k with TSC => K_tsc | CIC => K_cic end.
+Definition offof (k : kind) (off : Q) : Q := match k with TSC => off | CIC => 0%Q end.
+Definition adm (k : kind) (box off : Q) (n0 n1 n2 : Z) (p : Q * Q * Q * Q) : Prop :=
+  match k with TSC => adm_tsc box off n0 n1 n2 p | CIC => adm_cic box n0 n1 n2 p end.
+
+Definition shifted1 (box : Q) (g t : Z) (x x' : Q) : Prop :=
+  exists m, (x' == x + inject_Z (t + m * g) * (box / inject_Z g))%Q.
+
+Definition shifted (box : Q) (n0 n1 n2 : Z) (t : Z * Z * Z) (p p' : Q * Q * Q * Q) : Prop :=
+  let '(x, y, z, w) := p in let '(x', y', z', w') := p' in let '(tx, ty, tz) := t in
+  w' = w /\ shifted1 box n0 tx x x' /\ shifted1 box n1 ty y y' /\ shifted1 box n2 tz z z'.
+
